@@ -224,8 +224,13 @@ package logqlengine
 // The label set of a record: cleared, then trace / span / severity / body and the three attribute
 // maps (keys sanitised). Nothing but the set is written.
 //@ func (*LabelSet).SetFromRecord
+//@   capture rs = call(l.reset, 0)
+//@   capture sa = call(l.SetAttrs, 0)
 //@   modifies l.labels, l.labels[*]
 //@   ensures l.labels != nil
+//@   ensures[cleared-first] rs_called
+//@   ensures[attributes-of-this-record] sa_called && len(sa_a0) == 3 && same(sa_a0[0], record.Attrs) && same(sa_a0[1], record.ScopeAttrs) && same(sa_a0[2], record.ResourceAttrs)
+//@   ensures[attributes-applied-over-the-record-fields] before(sa_called, (record.Body != "" ==> has(l.labels, logql.Label("msg"))) && (!record.TraceID.IsEmpty() ==> has(l.labels, logql.Label("trace_id"))) && (!record.SpanID.IsEmpty() ==> has(l.labels, logql.Label("span_id"))) && (record.SeverityNumber != 0 ==> has(l.labels, logql.Label("level"))))
 //@ func (*LabelSet).reset
 //@   modifies l.labels, l.labels[*]
 //@   ensures l.labels != nil && len(l.labels) == 0
